@@ -144,6 +144,8 @@ class Alphabet:
                     yield from self._collect(b)
             elif op == sre_c.SUBPATTERN:
                 yield from self._collect(av[3])
+            elif op == getattr(sre_c, "ATOMIC_GROUP", None):
+                yield from self._collect(av)
             elif op in (sre_c.MAX_REPEAT, sre_c.MIN_REPEAT):
                 yield from self._collect(av[2])
             elif op in (sre_c.ASSERT, sre_c.ASSERT_NOT):
@@ -251,6 +253,10 @@ def _node(n: NFA, alpha: Alphabet, op, av, s: int, t: int):
         if av[1] or av[2]:
             raise Unsupported("inline flags")
         _seq(n, alpha, av[3], s, t)
+    elif op == getattr(sre_c, "ATOMIC_GROUP", None):
+        # an atomic group gives up some of the matches of the plain group (no backtracking into it): read as the plain group,
+        # the language is over-approximated — sound for "no word of this kind is matched", a witness may be spurious
+        _seq(n, alpha, av, s, t)
     elif op == sre_c.BRANCH:
         for b in av[1]:
             _seq(n, alpha, b, s, t)
